@@ -136,7 +136,7 @@ def fresh_label(nodes):
     return None
 
 
-def scramble(h, codes, trace=None):
+def scramble(h, codes, trace=None, warmup=None):
     """Apply content-preserving detours (drawn small ints) to a container and return the
     object to use from now on (a copy when a copy detour was drawn).
 
@@ -147,6 +147,9 @@ def scramble(h, codes, trace=None):
          remove_node(Z, keep_edges=True): the shrunk hyperedge merges into e
       4  remove an existing hyperedge and insert it again with its weight and metadata
          (its internal id moves to the end, leaving a gap in the middle)
+      5  (needs a warm-up callable) replace one hyperedge by another on existing nodes (same
+         counts), ask the module's queries once (results discarded), then restore the
+         hyperedge: a result cached by the library during the warm-up is stale afterwards
     Nodes, hyperedges, weights and metadata are the same before and after.
     """
     kind = type(h).__name__
@@ -157,11 +160,35 @@ def scramble(h, codes, trace=None):
         z = fresh_label(nodes)
         edges = list(h.get_edges())
         a = sorted(nodes, key=repr)[0]
-        code = code % 5
+        code = code % 6
+        if code == 5 and (warmup is None or kind not in ("Hypergraph", "DirectedHypergraph")):
+            code = 4
         step = None
         if code == 2 and hasattr(h, "copy"):
             h = h.copy()
             step = "copy()"
+        elif code == 5 and edges and len(nodes) >= 2:
+            import itertools
+            e = edges[0]
+            w, m = h.get_weight(e), h.get_edge_metadata(e)
+            ns = sorted(nodes, key=repr)
+            if kind == "Hypergraph":
+                cands = (c for r in (2, 3, 1) for c in itertools.combinations(ns, r))
+            else:
+                cands = (((x,), (y,)) for x in ns for y in ns if x != y)
+            other = next((c for c in cands if not h.check_edge(c)), None)
+            if other is not None:
+                h.remove_edge(e)
+                h.add_edge(other)
+                try:
+                    warmup(h)
+                except Violation:
+                    raise
+                except Exception:  # noqa: the warm-up only populates caches
+                    pass
+                h.remove_edge(other)
+                h.add_edge(e, **(dict(weight=w) if h.is_weighted() else {}), metadata=m)
+                step = "replace %r by %r, query, restore" % (e, other)
         elif code == 4 and edges:
             e = edges[0]
             try:
@@ -268,13 +295,16 @@ def history_codes(*parts):
     if int(d[0], 16) < 8:
         return []
     n = 1 + int(d[1], 16) % 3
-    return [int(c, 16) % 5 for c in d[2:2 + n]]
+    return [int(c, 16) % 6 for c in d[2:2 + n]]
 
 
-def with_history(build_fn):
+def with_history(build_fn=None, warmup=None):
     """Decorator for a module's builder: the (first) container it returns is taken through
-    content-preserving detours chosen by history_codes(arguments)."""
+    content-preserving detours chosen by history_codes(arguments).  With ``warmup=f`` the
+    detour "replace a hyperedge, call f(h), restore" is available too."""
     import functools
+    if build_fn is None:
+        return lambda fn: with_history(fn, warmup=warmup)
 
     @functools.wraps(build_fn)
     def wrapper(*args, **kw):
@@ -284,12 +314,12 @@ def with_history(build_fn):
         if not codes:
             return out
         if type(out).__name__ in CONTAINERS:
-            return scramble(out, codes)
+            return scramble(out, codes, warmup=warmup)
         if isinstance(out, tuple):
             lst = list(out)
             for i, x in enumerate(lst):
                 if type(x).__name__ in CONTAINERS:
-                    lst[i] = scramble(x, codes)
+                    lst[i] = scramble(x, codes, warmup=warmup)
                     break
             return tuple(lst)
         return out
